@@ -393,3 +393,21 @@ func newGen(rng *rand.Rand, n int64) *gen {
 	}
 	return g
 }
+
+// newGenRobust: seeds of the robust-decoding monitor; large values (slices crossing
+// go-wire's 1024-element chunk) are one seed in four, and smaller than in monitor (a).
+func newGenRobust(rng *rand.Rand, n int64) *gen {
+	g := &gen{rng: rng, budget: 2000}
+	switch n % 8 {
+	case 1, 5:
+		g.profile = profExtreme
+	case 2:
+		g.large = true
+		g.budget = 12000
+	case 6:
+		g.large = true
+		g.profile = profExtreme
+		g.budget = 5000
+	}
+	return g
+}
